@@ -25,6 +25,13 @@
 //	                                no hooks; kind 0 NextFeatureId, 1 NewFeatureLocal(NextFeatureId) + AddFeature,
 //	                                2 GetOrAddFeature; the (type, role)s pairwise different, else 21 (BadBurst)
 //
+//	15 add e q kind p               AddEntity (add = 1) / RemoveEntity e in a goroutine whose first notification write to peer q
+//	                                is held inside the connection writer; meanwhile kind 0: peer p reads the discovery data,
+//	                                kind 1: peer p disconnects and reconnects; then the write is released. Observation:
+//	                                22 n, the n observations of the entity operation, [23 if the overlapped operation
+//	                                returned only after the release,] the observations of the overlapped operation
+//	16 p                            peer p disconnects (RemoveRemoteDeviceConnection) and is set up again
+//
 // Burst observations are canonical: the ids taken from the generator are sorted and paired with the
 // calls that take one in the order given (which goroutine obtained which id is the schedule's
 // business). From then on the runner names the features of that entity by the model's ids -- a
@@ -184,6 +191,51 @@ func (w *writer) take() [][]byte {
 	return m
 }
 
+// conn is one connection of a peer: what the stack writes to it goes to the peer's log, except during
+// the set-up exchange of the connection (kept aside), and one write can be held back (During).
+type conn struct {
+	log      *writer
+	mu       sync.Mutex
+	setup    bool
+	setupMsg [][]byte
+	armed    bool
+	parked   chan struct{}
+	release  chan struct{}
+}
+
+func (c *conn) WriteShipMessageWithPayload(msg []byte) {
+	c.mu.Lock()
+	if c.setup {
+		c.setupMsg = append(c.setupMsg, append([]byte(nil), msg...))
+		c.mu.Unlock()
+		return
+	}
+	hold := c.armed
+	c.armed = false
+	c.mu.Unlock()
+	if hold {
+		// the write is stalled inside the transport: nothing of the stack's own is locked by us
+		close(c.parked)
+		<-c.release
+	}
+	c.log.WriteShipMessageWithPayload(msg)
+}
+
+// arm: the next write to this connection is held until the returned release channel is closed
+func (c *conn) arm() (parked, release chan struct{}) {
+	c.mu.Lock()
+	defer c.mu.Unlock()
+	c.armed = true
+	c.parked, c.release = make(chan struct{}), make(chan struct{})
+	return c.parked, c.release
+}
+
+func (c *conn) disarm() {
+	c.mu.Lock()
+	c.armed = false
+	c.mu.Unlock()
+}
+
 // ---------------------------------------------------------------- forced scheduling
 
 type worker struct {
@@ -259,6 +311,7 @@ type peer struct {
 	dev string
 	ski string
 	w   *writer
+	c   *conn
 	rd  api.DeviceRemoteInterface
 	ctr uint64
 }
@@ -274,6 +327,10 @@ type impl struct {
 	// after bursts: implementation feature id -> model feature id per entity, and back
 	ren, inv map[int64]map[int64]int64
 	bursted  map[int64]bool
+	// the last collect: notification blocks and the reply block separately
+	lastNotifs, lastReply []hx.Zs
+	// a write held by During that has not been released (only when the operation was abandoned)
+	held chan struct{}
 }
 
 func (m *impl) toModel(e, id int64) int64 {
@@ -343,14 +400,30 @@ func newImpl() hx.Impl {
 	}
 	for i := 0; i < nPeers; i++ {
 		p := &peer{dev: fmt.Sprintf("peer%d", i), ski: fmt.Sprintf("ski-peer%d", i), w: &writer{}}
-		p.rd = m.dev.SetupRemoteDevice(p.ski, p.w).(api.DeviceRemoteInterface)
+		m.connect(p)
+		m.peers = append(m.peers, p)
+	}
+	spine.VerifSetYieldLT(m.sc.yield)
+	return m
+}
+
+// connect sets up a connection of the peer and makes the peer known by its detailed-discovery reply;
+// what the stack writes during this exchange (its own discovery read, its subscription to the peer's
+// node management, ...) is kept aside.
+func (m *impl) connect(p *peer) {
+	{
+		c := &conn{log: p.w, setup: true}
+		p.c = c
+		p.rd = m.dev.SetupRemoteDevice(p.ski, c).(api.DeviceRemoteInterface)
 		var ref *model.MsgCounterType
-		for _, b := range p.w.take() {
+		c.mu.Lock()
+		for _, b := range c.setupMsg {
 			var d model.Datagram
 			if json.Unmarshal(b, &d) == nil && d.Datagram.Header.MsgCounter != nil {
 				ref = d.Datagram.Header.MsgCounter
 			}
 		}
+		c.mu.Unlock()
 		devAddr := util.Ptr(model.AddressDeviceType(p.dev))
 		entInfo := func(a []model.AddressEntityType, t model.EntityTypeType) model.NodeManagementDetailedDiscoveryEntityInformationType {
 			return model.NodeManagementDetailedDiscoveryEntityInformationType{Description: &model.NetworkManagementEntityDescriptionDataType{
@@ -372,17 +445,27 @@ func newImpl() hx.Impl {
 				featInfo(clientAddr(p.dev, 1), model.FeatureTypeTypeGeneric, model.RoleTypeClient),
 				featInfo(clientAddr(p.dev, 2), model.FeatureTypeTypeGeneric, model.RoleTypeClient)},
 		}})
-		p.w.take()
-		m.peers = append(m.peers, p)
+		c.mu.Lock()
+		c.setup = false
+		c.setupMsg = nil
+		c.mu.Unlock()
 	}
-	spine.VerifSetYieldLT(m.sc.yield)
-	return m
+}
+
+// reconnect: the peer's connection closes, a new one is set up
+func (m *impl) reconnect(p *peer) {
+	m.dev.RemoveRemoteDeviceConnection(p.ski)
+	m.connect(p)
 }
 
 func (m *impl) Close() {
 	m.sc.mu.Lock()
 	m.sc.draining = true
 	m.sc.mu.Unlock()
+	if m.held != nil {
+		close(m.held)
+		m.held = nil
+	}
 	for _, w := range m.threads {
 		if w.state == 2 {
 			w.resume <- struct{}{}
@@ -536,6 +619,7 @@ func (m *impl) commonOK(d *model.NodeManagementDetailedDiscoveryDataType) bool {
 // ordered by (peer, client feature); replyTo/replyRef select the one datagram accepted as the read reply.
 func (m *impl) collect(replyTo int, replyRef uint64) (blocks []hx.Zs, results map[int]int64, other []hx.Zs) {
 	results = map[int]int64{}
+	m.lastNotifs, m.lastReply = nil, nil
 	for pi, p := range m.peers {
 		type blk struct {
 			c int64
@@ -567,8 +651,9 @@ func (m *impl) collect(replyTo int, replyRef uint64) (blocks []hx.Zs, results ma
 			case *h.CmdClassifier == model.CmdClassifierTypeReply && cmd.NodeManagementDetailedDiscoveryData != nil && pi == replyTo:
 				ok := srcOK && reflect.DeepEqual(h.AddressDestination, nmAddr(p.dev)) && h.MsgCounterReference != nil &&
 					uint64(*h.MsgCounterReference) == replyRef && len(cmd.Filter) == 0 && m.commonOK(cmd.NodeManagementDetailedDiscoveryData)
-				blocks = append(blocks, hx.Zs{11, int64(pi), b2i(ok)})
-				blocks = append(blocks, m.renderData(cmd.NodeManagementDetailedDiscoveryData)...)
+				rb := append([]hx.Zs{{11, int64(pi), b2i(ok)}}, m.renderData(cmd.NodeManagementDetailedDiscoveryData)...)
+				blocks = append(blocks, rb...)
+				m.lastReply = append(m.lastReply, rb...)
 				replyTo = -1
 			case *h.CmdClassifier == model.CmdClassifierTypeResult && cmd.ResultData != nil && cmd.ResultData.ErrorNumber != nil:
 				if _, dup := results[pi]; dup {
@@ -582,6 +667,7 @@ func (m *impl) collect(replyTo int, replyRef uint64) (blocks []hx.Zs, results ma
 		sort.SliceStable(nb, func(i, j int) bool { return nb[i].c < nb[j].c })
 		for _, b := range nb {
 			blocks = append(blocks, b.z...)
+			m.lastNotifs = append(m.lastNotifs, b.z...)
 		}
 	}
 	return
@@ -858,9 +944,110 @@ func (m *impl) Exec(op hx.Zs) []hx.Zs {
 		return m.readReply(rd.peer, rd.ref)
 	case 14:
 		return m.burst(op)
+	case 15:
+		return m.during(op)
+	case 16:
+		if len(op) != 2 || op[1] < 0 || op[1] >= nPeers {
+			return bad
+		}
+		m.reconnect(m.peers[op[1]])
+		return m.quiet([]hx.Zs{{17}})
 	}
 	return bad
 }
+
+// stallWait: how long the operation overlapping a stalled notification write may take before it is
+// reported as blocked behind it (it takes well under a millisecond when nothing waits for the write)
+const stallWait = 3 * time.Second
+
+// during: AddEntity / RemoveEntity with its first notification write to peer q held inside the
+// connection, overlapped by a discovery read or a disconnect of peer p
+func (m *impl) during(op hx.Zs) []hx.Zs {
+	bad := []hx.Zs{{97}}
+	if len(op) != 6 || op[1] < 0 || op[1] > 1 || op[2] < 1 || op[3] < 0 || op[3] >= nPeers || op[4] < 0 || op[4] > 1 || op[5] < 0 || op[5] >= nPeers {
+		return bad
+	}
+	add, e, q, kind, pi := op[1] == 1, op[2], m.peers[op[3]], op[4], int(op[5])
+	inner := hx.Zs{11, int64(pi)}
+	if kind == 1 {
+		inner = hx.Zs{16, int64(pi)}
+	}
+	ent := m.objs[e]
+	if ent == nil || (add && m.member[e]) {
+		// the entity operation does nothing: one after the other
+		o1 := m.Exec(hx.Zs{2 - op[1], e})
+		o2 := m.Exec(inner)
+		return append(append([]hx.Zs{{22, int64(len(o1))}}, o1...), o2...)
+	}
+	parked, release := q.c.arm()
+	entDone := make(chan struct{})
+	go func() {
+		defer close(entDone)
+		if add {
+			m.dev.AddEntity(ent)
+		} else {
+			m.dev.RemoveEntity(ent)
+		}
+	}()
+	stalled := false
+	select {
+	case <-parked:
+		stalled = true
+		m.held = release
+		duringStats["entity_ops_with_a_write_stalled"]++
+	case <-entDone:
+		// peer q gets no notification: nothing to stall
+		q.c.disarm()
+		duringStats["entity_ops_without_a_write_to_the_stalled_peer"]++
+	}
+	m.member[e] = add
+	// the overlapped operation, while the write is stalled
+	p := m.peers[pi]
+	var ref uint64
+	innerDone := make(chan struct{})
+	go func() {
+		defer close(innerDone)
+		if kind == 0 {
+			ref = p.send(model.CmdClassifierTypeRead, nil, false, model.CmdType{NodeManagementDetailedDiscoveryData: &model.NodeManagementDetailedDiscoveryDataType{}})
+		} else {
+			m.reconnect(p)
+		}
+	}()
+	blocked := false
+	select {
+	case <-innerDone:
+	case <-time.After(stallWait):
+		blocked = stalled
+	}
+	if stalled {
+		close(release)
+		m.held = nil
+	}
+	// both must return now; if not, the harness's watchdog reports the operation as never returned
+	<-innerDone
+	<-entDone
+	replyTo := -1
+	if kind == 0 {
+		replyTo = pi
+	}
+	_, results, other := m.collect(replyTo, ref)
+	ret := append([]hx.Zs{{22, int64(len(m.lastNotifs))}}, m.lastNotifs...)
+	if blocked {
+		ret = append(ret, hx.Zs{23})
+		duringStats["overlapped_ops_blocked_behind_the_write"]++
+	}
+	if kind == 0 {
+		ret = append(ret, m.lastReply...)
+	} else {
+		ret = append(ret, hx.Zs{17})
+	}
+	for x := range results {
+		other = append(other, hx.Zs{16, int64(x)})
+	}
+	return append(ret, other...)
+}
+
+var duringStats = map[string]int{}
 
 // burst: overlapping calls on one entity object, one goroutine each, released together
 func (m *impl) burst(op hx.Zs) []hx.Zs {
@@ -1015,12 +1202,123 @@ type sim struct {
 	list  []int64 // the member list in order
 	thr   map[int64][3]int64
 	reads map[int64][]int64 // pending reads: thread -> the member list at its begin
+	subs  map[[2]int64]bool // predicted subscription entries (peer, client feature)
 	h     []hx.Zs
+}
+
+// subscribedPeers in ascending order
+func (s *sim) subscribedPeers() []int64 {
+	seen := map[int64]bool{}
+	for k := range s.subs {
+		seen[k[0]] = true
+	}
+	var l []int64
+	for p := int64(0); p < nPeers; p++ {
+		if seen[p] {
+			l = append(l, p)
+		}
+	}
+	return l
+}
+
+func (s *sim) reconnect(p int64) {
+	s.h = append(s.h, hx.Zs{16, p})
+	s.dropSubs(p)
+}
+
+func (s *sim) dropSubs(p int64) {
+	for k := range s.subs {
+		if k[0] == p {
+			delete(s.subs, k)
+		}
+	}
+}
+
+// during: an entity operation with its notification write to peer q stalled, overlapped by another
+// peer's read or by a disconnect; aimed at subscribed peers
+func (s *sim) during() {
+	r := s.r
+	sp := s.subscribedPeers()
+	q := int64(r.Intn(nPeers))
+	if len(sp) > 0 && r.Chance(7, 8) {
+		q = sp[r.Intn(len(sp))]
+	}
+	// the entity: mostly one for which the operation does something
+	e := int64(r.Range(1, maxEnt))
+	add := int64(r.Intn(2))
+	var cand []int64
+	for x := int64(1); x <= maxEnt; x++ {
+		if en := s.ents[x]; en != nil && en.member == (add == 0) {
+			cand = append(cand, x)
+		}
+	}
+	if len(cand) > 0 && r.Chance(9, 10) {
+		e = cand[r.Intn(len(cand))]
+	}
+	kind := int64(r.Pick(60, 40))
+	p := int64(r.Intn(nPeers))
+	if kind == 0 {
+		// another peer's read
+		p = (q + 1 + int64(r.Intn(nPeers-1))) % nPeers
+	} else if len(sp) > 0 && r.Chance(3, 4) {
+		p = sp[r.Intn(len(sp))] // a subscribed peer disconnects (also the stalled one)
+	}
+	s.h = append(s.h, hx.Zs{15, add, e, q, kind, p})
+	if en := s.ents[e]; en != nil {
+		if add == 1 && !en.member {
+			en.member = true
+			s.list = append(s.list, e)
+		} else if add == 0 {
+			en.member = false
+			var l []int64
+			for _, x := range s.list {
+				if x != e {
+					l = append(l, x)
+				}
+			}
+			s.list = l
+		}
+	}
+	if kind == 1 {
+		s.dropSubs(p)
+	}
+}
+
+// duringRounds: subscriptions, entities with features, then entity operations with a stalled write
+func (s *sim) duringRounds() {
+	r := s.r
+	for k := r.Range(1, 4); k > 0; k-- {
+		s.subscribe()
+	}
+	for k := r.Range(1, 3); k > 0; k-- {
+		s.newEntity()
+		ty, role := s.tyRole()
+		s.addFeatureTo(s.h[len(s.h)-1][1], ty, role)
+	}
+	for n := r.Range(3, 9); n > 0; n-- {
+		switch r.Pick(55, 10, 10, 8, 7, 5, 5) {
+		case 0:
+			s.during()
+		case 1:
+			s.subscribe()
+		case 2:
+			s.addEntity()
+		case 3:
+			s.removeEntity()
+		case 4:
+			s.reconnect(int64(r.Intn(nPeers)))
+		case 5:
+			s.read()
+		default:
+			s.addFeature()
+		}
+	}
+	s.read()
 }
 
 func newSim(r *hx.Rng) *sim {
 	return &sim{r: r, ents: map[int64]*simEnt{0: {ctr: 2, feats: []simFeat{{0, 1, 3}, {1, 2, 2}}, member: true}}, list: []int64{0},
-		thr: map[int64][3]int64{}, reads: map[int64][]int64{}}
+		thr: map[int64][3]int64{}, reads: map[int64][]int64{}, subs: map[[2]int64]bool{}}
 }
 
 // measured shape of the generated overlapped reads (reported in the evidence)
@@ -1382,20 +1680,27 @@ func (s *sim) subscribe() {
 	if s.r.Chance(1, 15) {
 		c = nClient + int64(s.r.Intn(2))
 	}
-	s.h = append(s.h, hx.Zs{9, int64(s.r.Intn(nPeers)), c})
+	p := int64(s.r.Intn(nPeers))
+	s.h = append(s.h, hx.Zs{9, p, c})
+	if c < nClient {
+		s.subs[[2]int64{p, c}] = true
+	}
 }
 
 func (s *sim) unsubscribe() {
-	s.h = append(s.h, hx.Zs{10, int64(s.r.Intn(nPeers)), int64(s.r.Intn(nClient))})
+	p, c := int64(s.r.Intn(nPeers)), int64(s.r.Intn(nClient))
+	s.h = append(s.h, hx.Zs{10, p, c})
+	delete(s.subs, [2]int64{p, c})
 }
 
 func (s *sim) read() { s.h = append(s.h, hx.Zs{11, int64(s.r.Intn(nPeers))}) }
 
 func (s *sim) mixedStep(conc, overlap bool) {
-	w := []int{8, 10, 7, 18, 9, 4, 9, 9, 5, 12, 0, 0, 0, 0, 0}
+	w := []int{8, 10, 7, 18, 9, 4, 9, 9, 5, 12, 0, 0, 0, 0, 0, 0, 0}
 	if conc {
 		w[10], w[11] = 12, 12
 		w[14] = 8
+		w[15], w[16] = 6, 2
 	}
 	if overlap {
 		w[12], w[13] = 9, 9
@@ -1443,6 +1748,10 @@ func (s *sim) mixedStep(conc, overlap bool) {
 		s.readBegin(int64(s.r.Intn(4)))
 	case 14:
 		s.burst(s.pickEnt(true), s.r.Range(2, 6))
+	case 15:
+		s.during()
+	case 16:
+		s.reconnect(int64(s.r.Intn(nPeers)))
 	default:
 		t := int64(s.r.Intn(4))
 		// mostly end a read that is pending
@@ -1578,7 +1887,9 @@ func (s *sim) overlapChange() {
 
 func gen(r *hx.Rng, tier string, i int) []hx.Zs {
 	s := newSim(r)
-	switch i % 7 {
+	switch i % 8 {
+	case 7: // entity operations whose notification write to a subscribed peer is stalled, overlapped by reads and disconnects
+		s.duringRounds()
 	case 0: // sequential: configurations, additions, removals, reads
 		for n := r.Range(8, 60); n > 0; n-- {
 			s.mixedStep(false, false)
@@ -1679,6 +1990,11 @@ func fixed(tier string) [][]hx.Zs {
 		// two bare NextFeatureId), a refused burst, a function on and a GetOrAddFeature of burst features, a second burst, reads
 		{{0, 1, 2}, {3, 1, 4, 2, 0}, {1, 1}, {14, 1, 1, 5, 2, 0, 0, 0, 2, 4, 2, 2, 6, 1, 1, 7, 1, 1, 3, 2, 0, 0, 0, 1, 5, 1}, {11, 0},
 			{14, 1, 1, 6, 2, 2, 6, 2}, {4, 1, 2, 13, 1, 1, b2i(psup(5, 13))}, {6, 1, 7, 1}, {14, 1, 1, 2, 2, 1, 6, 2, 0, 0, 0, 1, 4, 1}, {5, 1}, {11, 2}},
+		// C07_nonvacuous_during: peers 0 and 1 subscribed; entity 1 added with the write to peer 0 stalled while peer 2 reads,
+		// removed with the write to peer 1 stalled while peer 0 disconnects, added again (only peer 1 is notified) while peer 1
+		// reads behind peer 0's connection, peer 1 reconnects, a During whose entity operation notifies nobody, a missing object
+		{{0, 1, 5}, {3, 1, 4, 2, 0}, {9, 0, 0}, {9, 1, 1}, {15, 1, 1, 0, 0, 2}, {15, 0, 1, 1, 1, 0}, {15, 1, 1, 0, 0, 1}, {16, 1},
+			{15, 0, 1, 2, 1, 2}, {15, 1, 3, 0, 0, 0}, {11, 1}},
 	}
 }
 
@@ -1686,10 +2002,10 @@ func main() {
 	hx.Main(hx.Config{
 		Property: "C07",
 		Clauses: map[int64]string{1: "reply-differs-from-tree", 2: "announced-address-does-not-resolve", 3: "entity-notification-wrong",
-			4: "feature-id-reused", 5: "get-or-add-not-one-feature", 6: "malformed-observation", 98: "unparseable-observation", 99: "unparseable-operation"},
+			4: "feature-id-reused", 5: "get-or-add-not-one-feature", 6: "malformed-observation", 7: "blocked-behind-stalled-notification", 98: "unparseable-observation", 99: "unparseable-operation"},
 		OpNames: map[int64]string{0: "new-entity", 1: "add-entity", 2: "remove-entity", 3: "add-feature", 4: "add-function", 5: "next-id",
 			6: "get-or-add", 7: "get-or-add.lookup", 8: "get-or-add.create", 9: "subscribe", 10: "unsubscribe", 11: "read",
-			12: "read.begin", 13: "read.end", 14: "burst"},
+			12: "read.begin", 13: "read.end", 14: "burst", 15: "during", 16: "reconnect"},
 		NewImpl: newImpl,
 		Gen:     gen,
 		Fixed:   fixed,
@@ -1699,6 +2015,9 @@ func main() {
 				out[k] = v
 			}
 			for k, v := range burstStats {
+				out[k] = v
+			}
+			for k, v := range duringStats {
 				out[k] = v
 			}
 			return out
